@@ -26,6 +26,8 @@ func init() {
 		Run: runC07,
 	})
 	addMutants("C07",
+		mutant{"old length bits kept", "codec/websocket/frame.go",
+			"\t(*f)[1] &= (1 << 7)\n\n\tif n > (1<<16 - 1) {", "\tif n > (1<<16 - 1) {", "C07-R3"},
 		mutant{"reservation skipped when the payload alone would fit", "codec/websocket/frame_codec.go",
 			"\t\tsrc.Reserve(payloadLength) // payload", "\t\tif payloadLength > src.Cap() {\n\t\t\tsrc.Reserve(payloadLength)\n\t\t} // payload", "C07-R2"},
 		mutant{"incomplete payload reserves half of it", "codec/websocket/frame_codec.go",
